@@ -163,6 +163,35 @@ type Proposal struct {
 	Data     map[uint16][]byte   // raw version data per version
 }
 
+// Has says whether the version was in the proposal.
+func (p *Proposal) Has(v uint16) bool {
+	_, ok := p.Data[v]
+	return ok
+}
+
+// Magic reads the network magic out of the raw version data proposed for v
+// (every wire shape of the handshake holds it first); false if there is none.
+func (p *Proposal) Magic(v uint16) (uint32, bool) {
+	d, ok := p.Data[v]
+	if !ok {
+		return 0, false
+	}
+	var m uint64
+	if err := fcbor.Unmarshal(d, &m); err != nil {
+		var arr []fcbor.RawMessage
+		if err := fcbor.Unmarshal(d, &arr); err != nil || len(arr) == 0 {
+			return 0, false
+		}
+		if err := fcbor.Unmarshal(arr[0], &m); err != nil {
+			return 0, false
+		}
+	}
+	if m > 0xffffffff {
+		return 0, false
+	}
+	return uint32(m), true
+}
+
 func decodeProposal(payload []byte) (*Proposal, error) {
 	var msg []fcbor.RawMessage
 	if err := fcbor.Unmarshal(payload, &msg); err != nil {
